@@ -15,8 +15,9 @@ use ruschm::parser::LibraryName;
 use serde_json::json;
 use std::collections::HashMap;
 
-pub const CLIB: &str = "(define-library (clib)
-  (export next (rename peek look) readg setn! (rename raw-step step) use-step (rename sa sb) (rename sb sa) (rename next advance) (rename peek look-too) boot-seen)
+pub const CLIB: &str = "(define-library (clib impl) (export secret) (begin (define secret 'impl-secret)))
+(define-library (clib)
+  (export next (rename peek look) readg setn! (rename raw-step step) use-step (rename sa sb) (rename sb sa) (rename next advance) (rename peek look-too) boot-seen use-helper lib-unless-value)
   (import (scheme base))
   (begin
     (define n 0)
@@ -30,6 +31,10 @@ pub const CLIB: &str = "(define-library (clib)
     (define (use-step) (step))
     (define sa 'internal-sa)
     (define sb 'internal-sb)
+    (define-syntax unless (syntax-rules () ((unless a ...) 'lib-unless)))
+    (define-syntax helper (syntax-rules () ((helper a) (list 'lib-macro a))))
+    (define (use-helper) (helper 1))
+    (define (lib-unless-value) (unless #f 'x))
     (define boot 0)
     (set! boot (+ boot 1))
     (set! boot (+ boot 1))
@@ -72,9 +77,9 @@ fn libdefs() -> HashMap<&'static str, LibDef> {
     m.insert(
         "clib",
         LibDef {
-            exports: vec![("next", "next"), ("peek", "look"), ("readg", "readg"), ("setn!", "setn!"), ("raw-step", "step"), ("use-step", "use-step"), ("sa", "sb"), ("sb", "sa"), ("next", "advance"), ("peek", "look-too"), ("boot-seen", "boot-seen")],
+            exports: vec![("next", "next"), ("peek", "look"), ("readg", "readg"), ("setn!", "setn!"), ("raw-step", "step"), ("use-step", "use-step"), ("sa", "sb"), ("sb", "sa"), ("next", "advance"), ("peek", "look-too"), ("boot-seen", "boot-seen"), ("use-helper", "use-helper"), ("lib-unless-value", "lib-unless-value")],
             imports: vec![],
-            body: parse_all("(define n 0) (define (h) (set! n (+ n 1)) n) (define (next) (h)) (define (peek) n) (define (readg) g) (define (setn! v) (set! n v) n) (define (step) 'internal-step) (define (raw-step) 'raw-step) (define (use-step) (step)) (define sa 'internal-sa) (define sb 'internal-sb) (define boot 0) (set! boot (+ boot 1)) (set! boot (+ boot 1)) (define boot-seen boot)"),
+            body: parse_all("(define n 0) (define (h) (set! n (+ n 1)) n) (define (next) (h)) (define (peek) n) (define (readg) g) (define (setn! v) (set! n v) n) (define (step) 'internal-step) (define (raw-step) 'raw-step) (define (use-step) (step)) (define sa 'internal-sa) (define sb 'internal-sb) (define (use-helper) (list 'lib-macro 1)) (define (lib-unless-value) 'lib-unless) (define boot 0) (set! boot (+ boot 1)) (set! boot (+ boot 1)) (define boot-seen boot)"),
         },
     );
     m.insert(
@@ -142,7 +147,7 @@ pub fn configs() -> Vec<Config> {
         out.push(Config {
             name: "P->L twice",
             import: "(import (scheme base) (only (clib) next readg) (rename (except (clib) readg) (next next2) (look look2) (setn! setn2!)))",
-            sets: vec![("clib", Some(vec![("next", "next"), ("readg", "readg")])), ("clib", Some(vec![("next", "next2"), ("look", "look2"), ("setn!", "setn2!"), ("step", "step"), ("use-step", "use-step"), ("sa", "sa"), ("sb", "sb"), ("advance", "advance"), ("look-too", "look-too"), ("boot-seen", "boot-seen")]))],
+            sets: vec![("clib", Some(vec![("next", "next"), ("readg", "readg")])), ("clib", Some(vec![("next", "next2"), ("look", "look2"), ("setn!", "setn2!"), ("step", "step"), ("use-step", "use-step"), ("sa", "sa"), ("sb", "sb"), ("advance", "advance"), ("look-too", "look-too"), ("boot-seen", "boot-seen"), ("use-helper", "use-helper"), ("lib-unless-value", "lib-unless-value")]))],
             more_imports: &[],
             file_supply,
         });
@@ -188,9 +193,11 @@ pub const OPS: &[&str] = &[
     "(setg! 9)",
     "(bump-own!)",
     "(define own 'importer-own)",
+    // a procedure of the importer named like a macro that is private to the library
+    "(define (helper a) (list 'proc a))",
 ];
 
-pub const PROBES: &[&str] = &["h", "n", "g", "peek", "helper", "(step)", "(use-step)", "sa", "sb", "raw-step", "(readg)", "(look)", "(look2)", "(mhelper)", "(next)", "(bump)", "(next2)", "(look)", "(look-too)", "(advance)", "(getg)", "(own-of)", "(own-alias)", "own", "boot-seen", "boot", "(look)"];
+pub const PROBES: &[&str] = &["h", "n", "g", "peek", "helper", "(step)", "(use-step)", "sa", "sb", "raw-step", "(readg)", "(look)", "(look2)", "(mhelper)", "(next)", "(bump)", "(next2)", "(look)", "(look-too)", "(advance)", "(getg)", "(own-of)", "(own-alias)", "own", "boot-seen", "boot", "(use-helper)", "(lib-unless-value)", "(unless #f 'ran)", "(helper 2)", "secret", "(look)"];
 
 pub struct Sys {
     cfg: usize,
